@@ -25,7 +25,10 @@ type variant struct {
 
 var hunkRe = regexp.MustCompile(`^@@ -(\d+)(?:,(\d+))? \+(\d+)(?:,(\d+))? @@`)
 
-func readVariant(path string) (*variant, error) {
+func readVariant(path string) (*variant, error) { return readVariantExpect(path, "") }
+
+// readVariantExpect: expect overrides/supplies the expectation (seeded changes keep it in a separate file).
+func readVariantExpect(path, expect string) (*variant, error) {
 	f, err := os.Open(path)
 	if err != nil {
 		return nil, err
@@ -48,6 +51,9 @@ func readVariant(path string) (*variant, error) {
 				v.Files[cur] = append(v.Files[cur], line)
 			}
 		}
+	}
+	if expect != "" {
+		v.Expect = expect
 	}
 	if v.Expect == "" {
 		return nil, fmt.Errorf("%s: no '# expect:' header", path)
@@ -171,9 +177,27 @@ func runSelfTest(pd *PropDoc, verif string) []selfTestResult {
 	dir := filepath.Join(verif, "variants", pd.ID)
 	ents, _ := filepath.Glob(filepath.Join(dir, "*.diff"))
 	sort.Strings(ents)
+	// seeded changes written by independent sub-agents (seeded/<ID>-s<k>/patch.diff; expectation in expect.txt, written by
+	// tools/seeded_eval.py: "fire:<rules>" or "not-decided" for the changes no sound static rule reaches)
+	seeds, _ := filepath.Glob(filepath.Join(verif, "seeded", pd.ID+"-s*", "patch.diff"))
+	sort.Strings(seeds)
+	ents = append(ents, seeds...)
 	var res []selfTestResult
 	for _, p := range ents {
-		v, err := readVariant(p)
+		var v *variant
+		var err error
+		if filepath.Base(p) == "patch.diff" {
+			exp, rerr := os.ReadFile(filepath.Join(filepath.Dir(p), "expect.txt"))
+			if rerr != nil {
+				continue
+			}
+			v, err = readVariantExpect(p, strings.TrimSpace(string(exp)))
+			if v != nil {
+				v.Name = "seeded/" + filepath.Base(filepath.Dir(p))
+			}
+		} else {
+			v, err = readVariant(p)
+		}
 		if err != nil {
 			res = append(res, selfTestResult{Variant: filepath.Base(p), Status: "not-applicable: " + err.Error()})
 			continue
@@ -202,7 +226,13 @@ func runSelfTest(pd *PropDoc, verif string) []selfTestResult {
 		}
 		sort.Strings(fl)
 		st := "ok"
-		if v.Expect == "silent" {
+		if v.Expect == "not-decided" {
+			// documented limit: the change breaks the property but no structural rule decides it
+			st = "not-decided (documented)"
+			if len(fl) > 0 {
+				st = "ok (now caught)"
+			}
+		} else if v.Expect == "silent" {
 			if len(fl) > 0 {
 				st = "FALSE-ALARM"
 			}
